@@ -731,7 +731,30 @@ def r2_12_security_features(ctx, prog, rule="R2.12"):
                 for o in st["rv"]["ops"]:
                     if o["k"] == "const" and o.get("bits") is not None and int(o["bits"]) == 3:
                         three = True
-    ctx.ob(rule, "writer", ok_e and three, "new_nonce_cookie: to_be_bytes %s, [..3] %s" % (ok_e, three), enc[0].where())
+    sem = None
+    if not (ok_e and three):
+        # the same bytes spelled otherwise (`let [b0, b1, b2, _] = bits.to_be_bytes(); encode([b0, b1, b2])`): what is handed to
+        # the base64 encoder must be the three most significant bytes of the flags word, in order
+        wp, winfo = C.explore_fn(prog, enc[0].path, "x", [r"\{closure"], concrete_iters=True)
+        sem = bool(wp)
+        for pa in wp:
+            encs = [(i, e) for i, e in enumerate(pa.log) if e[0] == "call" and re.search(r"base64::Engine>::encode", e[1])]
+            if pa.choice(r"^variant\(flags\)$") == "None" and not encs:
+                continue
+            good = False
+            for i, e in encs:
+                a = C.expr_of(pa, e[2], 0, i)[1]
+                while isinstance(a, tuple) and len(a) == 2 and isinstance(a[1], str) and a[1].startswith("."):
+                    a = a[0]
+                if isinstance(a, tuple) and a and a[0].endswith("index") and len(a) == 3 and a[2] == ("RangeTo", 3):
+                    a = ("array",) + tuple(a[1][1:4]) if isinstance(a[1], tuple) and a[1][0] == "array" else a
+                if isinstance(a, tuple) and a and a[0] == "array" and len(a) == 4:
+                    bases = {repr(x[1]) for x in a[1:] if isinstance(x, tuple) and len(x) == 3 and x[0] == "op:Shr"}
+                    good = len(bases) == 1 and [x[2] for x in a[1:]] == [24, 16, 8] and "bits" in next(iter(bases))
+                    if not good and pa.choice(r"^variant\(flags\)$") == "None":
+                        good = list(a[1:]) == [0, 0, 0]          # no flags: the word is the constant 0
+            sem = sem and good
+    ctx.ob(rule, "writer", (ok_e and three) or bool(sem), "new_nonce_cookie: to_be_bytes %s, [..3] %s%s" % (ok_e, three, "" if sem is None else "; the encoder receives the three most significant bytes of the flags word: %s" % sem), enc[0].where())
     d_calls = [c.callee_path for c in dec.calls()]
     ok_d = any(re.search(r"BigEndian as byteorder::ByteOrder>::read_u32$|from_be_bytes$", c) for c in d_calls) and \
         any(re.search(r"decode_slice", c) for c in d_calls)
